@@ -236,10 +236,46 @@ func c15LayoutResolution(r *Run) {
 	}
 }
 
+// a page that fails in the middle of a text (output already produced for it), then is repaired: the long-lived engine
+// renders the repaired page like a new engine does - nothing of the failed render is left anywhere
+func c15FailedThenRepaired(r *Run) {
+	good := func(i int) string { return fmt.Sprintf("<p>Hello {{ name }} v%d!</p><p title=\"t {{ name }}\">x</p>", i) }
+	bad := `<p>DRAFT for {{ name }} total {{ name | noSuchFilter }}</p><p title="T {{ name }} {{ name | nosuch2 }}">y</p>`
+	for _, entry := range []string{"VueRender", "Load.Render"} {
+		m := fstest.MapFS{}
+		vue, tpl := vuego.NewVue(m), vuego.NewFS(m)
+		render := func(v *vuego.Vue, t vuego.Template) string {
+			var buf bytes.Buffer
+			var err error
+			if entry == "VueRender" {
+				err = v.Render(&buf, "page.vuego", map[string]any{"name": "World"})
+			} else {
+				err = t.New().Fill(map[string]any{"name": "World"}).Load("page.vuego").Render(context.Background(), &buf)
+			}
+			return strings.Join(strings.Fields(buf.String()), "") + "|failed=" + fmt.Sprint(err != nil)
+		}
+		for i := 0; i < 6; i++ {
+			src := good(i)
+			if i%2 == 1 {
+				src = bad
+			}
+			m["page.vuego"] = &fstest.MapFile{Data: []byte(src), ModTime: time.Unix(300000+int64(i)*10, 0)}
+			got, want := render(vue, tpl), render(vuego.NewVue(m), vuego.NewFS(m))
+			r.Eval(fmt.Sprintf("failed-then-repaired:%s:%d", entry, i), i > 0, nil)
+			r.Count("stream:failed-then-repaired(oracle only)")
+			if got != want {
+				r.Fail("after a failed render the long-lived engine renders the page differently from a new engine", map[string]string{"oracle": "failed-then-repaired", "entry": entry},
+					map[string]any{"step": i, "page": src, "long_lived": got, "new_engine": want})
+			}
+		}
+	}
+}
+
 func init() { streams["C15"] = runC15 }
 
 func runC15(r *Run) {
 	c15LayoutResolution(r)
+	c15FailedThenRepaired(r)
 	r.Imports = []string{"Model.Cache"}
 	r.Rule("histories of {edit page/component/layout with a new version and an mtime that advances, stays equal, goes backwards or is zero; delete; recreate; make invalid (bad front-matter); " +
 		"render via Vue.Render, Vue.RenderFragment, Load().Render, RenderFile, with a named layout, without any, and with the default layouts/base.vuego being created, edited and deleted between renders} on one long-lived engine over an in-memory FS; " +
